@@ -60,6 +60,8 @@ class LSkel(Skel):
             for a in e0["args"]:
                 inner += self.ops(a)
             if nm == "branch" and len(e0["args"]) == 1:
+                if strip(e0["args"][0]).get("inlined_from"):
+                    return inner          # `new_helper(..)?`: the helper's body stands here, its own returns are the exits
                 return inner + [("?",)]
             if any(x in d for x in CRATE_MARKS) and nm not in ("ok", "err", "parse_error"):
                 return inner + [("call", nm) + tuple(argkey(a) for a in e0["args"] if field_path(a) != ("self",))]
